@@ -263,9 +263,13 @@ class DavSession:
             self.acked_deleted = {k for k in self.acked_deleted if k[0] != ev["c"]}
 
     def put(self, c, n, data, ct=None, im=None, inm=None, valid=None, re=False, fault=0, chunked=False,
-            external=False, segmented=False):
+            external=False, segmented=False, byname=False):
         ct = ct or gamma.content_type_for(n)
         kind = gamma.kind_for_ct(ct)
+        if byname:
+            # the request labels the body as a generic file; what it *is* follows from the name
+            # it is stored under (that is how it will be served)
+            kind = gamma.kind_for_ct(gamma.content_type_for(n))
         b = self.body_id(data, kind, valid)
         self.names[c].add(n)
         hdrs = [("Content-Type", ct)]
